@@ -21,7 +21,7 @@ def run(ctx, report):
     ctx.facts.algorithm_table()
     ctx.facts.tree_banks()
     pending = run_recorded_async(["R05-national"], lambda cc, rules: _bban_level(ctx, rules["R05-national"], cc, struct_positions(ctx.registry, cc), bban_cls, None), todo)
-    m = IbanModel(ctx, with_validate=True)
+    m = IbanModel(ctx, with_validate=True, falsy_flag=True)
     b = BicModel(ctx)
     report.explanation = (
         "Exception-escape analysis by exhaustive symbolic path enumeration of IBAN/BIC __init__, validate() and is_valid (all flag values): every path ends in "
@@ -35,7 +35,7 @@ def run(ctx, report):
     R.rule_escape(b, report, "R05-escape-bic", "BIC")
     R.rule_isvalid(m, report, "R05-isvalid-iban", "IBAN")
     R.rule_isvalid(b, report, "R05-isvalid-bic", "BIC")
-    R.rule_funnel(m, report, "R05-funnel-iban", "IBAN", [("init", "validate", "is_valid"), ("init_bban", "validate_bban")])
+    R.rule_funnel(m, report, "R05-funnel-iban", "IBAN", [("init", "validate", "is_valid", "init_none"), ("init_bban", "validate_bban")])
     R.rule_funnel(b, report, "R05-funnel-bic", "BIC", [("init", "validate", "is_valid"), ("init_swift", "validate_swift")])
     R.rule_class_iban(m, report, "R05-class-iban")
     _class_bic(b, report)
